@@ -16,7 +16,8 @@ EXPLANATION = ("In ChargingNetwork: every method that writes one of the three pa
                "store of register_evse is guarded by `constraint_matrix is None` whose other edge raises; the Current algebra is closed: "
                "+, -, scalar * (and the reflected forms) are defined and every path returns Current(...) or raises, no exception is "
                "constructed and dropped, + and - zero-fill missing stations; constraint_current selects rows by iterating the network's "
-               "own constraint list filtered by membership (network order) and columns by the requested time indices.")
+               "own constraint list filtered by membership (network order) and columns by the requested time indices."
+               ' Added in round 3: no operand of the Current algebra is turned into a positional array on the way into the result; the unknown-station rejection is recognised in loop, filtered-collection and generator form; the stored label was looked up in (or renamed because of) the existing names on every path (decision table).')
 NOT_DECIDED = "numeric content of the matrix after a particular sequence; behaviour of pandas reindex/concat themselves (trusted as documented)"
 
 TRIPLE = ("constraint_matrix", "magnitudes", "constraint_index")
